@@ -71,6 +71,14 @@ Proof. exact base_plasma_transfer. Qed.
 Theorem C12_base_cost_method : forall key len b,
   base_plasma false true true key len = BOk b -> EmbeddedSimplePlasma <= b <= MaxPlasmaForAccountBlock.
 Proof. exact base_plasma_method. Qed.
+(* "a contract call costs the plasma of its method ..., never less than the account-block base": for the price of every
+   method of every method table (the key names the table), and for every user block that has a base cost *)
+Theorem C12_contract_call_costs_at_least_the_base : forall key len b,
+  base_plasma false true true key len = BOk b -> AccountBlockBasePlasma <= b.
+Proof. exact base_plasma_method_at_least_base. Qed.
+Theorem C12_every_base_cost_at_least_the_base : forall r c f key len b,
+  0 <= len -> base_plasma r c f key len = BOk b -> AccountBlockBasePlasma <= b.
+Proof. exact base_plasma_at_least_account_block_base. Qed.
 
 (* record of finding F1 (fixed in /repo): the int64 cast broke the threshold from 2^63 on *)
 Theorem C12_int64cast_refuted :
